@@ -18,7 +18,7 @@ PROP = "C19"
 BUDGET = {"quick": 300, "thorough": 3000}
 META = {
     "rule": "every labelled simple graph with >=1 edge on 2-5 sites (71 + 1023 graphs; spinful builders on graphs touching <=4 sites), spinless 6-site graphs in thorough; per graph: edges in "
-    "ascending / descending / mixed orientation x two list orders, site labels as ints / 2-tuples / strings, coefficients as scalars / dicts keyed in either orientation / callables with "
+    "ascending / descending / mixed orientation x two list orders, site labels as ints / 2-tuples / strings (site description: also two-digit ints, negative ints, tuples with two-digit and negative coordinates, strings with numbers - labelings whose natural, string and listing orders differ; one such labeling per graph for the spinless builders), coefficients as scalars / dicts keyed in either orientation / callables with "
     "bond- and site-dependent values, and mixed forms in which only one coefficient varies (rotating over the graphs); builders: spinless (Z2, U1) and spinful (Z2, U1, Z2Z2, U1U1). non-trivial = graph with a site of degree >= 2",
     "bounds": {"quick": "<=4 sites all builders and all six edge-listing variants; 5 sites spinless (and spinful sub-graphs touching <=4 sites) with two variants", "thorough": "5 sites all variants; spinless 6 sites sliced"},
     "assumptions": [
@@ -40,7 +40,19 @@ def label_of(kind, i):
         return i
     if kind == "tuple":
         return (i // 2, i % 2)
+    # labelings whose natural order, string order and listing order all differ
+    if kind == "int10":
+        return i + 8
+    if kind == "negint":
+        return i - 3
+    if kind == "tuple10":
+        return (i + 8, -i)
+    if kind == "strnum":
+        return "x" + str(i + 8)
     return "s" + chr(ord("a") + i)
+
+
+EXOTIC = ("int10", "negint", "tuple10", "strnum")
 
 
 def variant_edges(es, orient, order, kind):
@@ -293,6 +305,19 @@ def run_group(ctx, group):
                 edges = variant_edges(es, orient, order, lk)
                 for sig, det in site_info_failures(edges, st):
                     st.violation(sig, {"kind": "siteinfo", "edges": edges}, det)
+                for xk in EXOTIC:
+                    xedges = variant_edges(es, orient, order, xk)
+                    for sig, det in site_info_failures(xedges, st):
+                        st.violation(sig, {"kind": "siteinfo", "edges": xedges}, det)
+                if v == 1 + gi % 2 and kind != "graphs6":
+                    # one more lattice per graph with an exotic labeling (rotating), spinless builders
+                    xedges = variant_edges(es, orient, order, EXOTIC[(gi // 2) % 4])
+                    for sym, spinful in BUILDERS[:2]:
+                        fails = lattice_failures(sym, spinful, xedges, forms[(gi + v) % 5], st)
+                        st.evaluations += 1
+                        st.traces += 1
+                        for sig, det in fails:
+                            st.violation(sig, {"kind": "lattice", "sym": sym, "spinful": spinful, "edges": xedges, "form": forms[(gi + v) % 5]}, det)
                 for sym, spinful in BUILDERS:
                     nsites = len({s for e in es for s in e})
                     if spinful and nsites > 4:
